@@ -46,6 +46,9 @@ class HashGlobalVar(Expression):
 
     @contextmanager
     def get_address(self, dst, long, force=False):
+        # a saved r0 will be restored over the pointer we looked up
+        if dst is not None and dst != 0 and 0 in self.ebpf.owners:
+            force = True
         with self.ebpf.save_registers([i for i in range(6) if i != dst]), \
                 self.ebpf.get_stack(4) as stack:
             self.ebpf.append(Opcode.ST, 10, 0, stack, self.count)
